@@ -670,6 +670,22 @@ class SpecEnv(object):
                                  patterns=[z3.Select(h, q)]))
         P["conns_truthy"] = p_conns_truthy
 
+        def p_is_new(ctx, x):
+            """x is an object created by this very call (so nothing outside can hold a reference to it yet)"""
+            from .engine import Obj
+            return isinstance(x, Obj) and bool(x.allocated)
+        P["is_new"] = p_is_new
+
+        def p_config_overrides(ctx, d, c):
+            """every entry of the caller's config c (but the connection id, which is generated when absent) is in d with c's value"""
+            e = ctx.engine
+            md, hd = e.heap_get(ctx.st, d, "map").z, e.heap_get(ctx.st, d, "has").z
+            mc, hc = e.heap_get(ctx.pre, c, "map").z, e.heap_get(ctx.pre, c, "has").z
+            k = z3.Const("q!cfg", Val)
+            return b2v(z3.ForAll([k], z3.Implies(z3.And(z3.Select(hc, k), k != Val.VStr(seq_lit("connid"))),
+                                                 z3.And(z3.Select(hd, k), z3.Select(md, k) == z3.Select(mc, k)))))
+        P["config_overrides"] = p_config_overrides
+
         def p_shutdown_attempted_on(ctx, sock):
             """the trace holds a read of the `shutdown` attribute of exactly this socket object (followed by its call unless the read
             itself failed)"""
